@@ -25,6 +25,7 @@ type FlowGraph struct {
 }
 
 var flowCache = map[*ssa.Function]*FlowGraph{}
+var flowBuilding = map[*ssa.Function]bool{}
 
 func (g *FlowGraph) edge(a, b ssa.Value) {
 	if a == nil || b == nil || a == b {
@@ -82,6 +83,8 @@ func flowOf(fn *ssa.Function) *FlowGraph {
 	}
 	g := &FlowGraph{fn: fn, succ: map[ssa.Value][]ssa.Value{}, pred: map[ssa.Value][]ssa.Value{}}
 	flowCache[fn] = g
+	flowBuilding[fn] = true
+	defer delete(flowBuilding, fn)
 	for _, b := range fn.Blocks {
 		for _, ins := range b.Instrs {
 			switch x := ins.(type) {
@@ -140,6 +143,10 @@ func flowOf(fn *ssa.Function) *FlowGraph {
 			case ssa.CallInstruction:
 				cc := x.Common()
 				res, _ := ins.(ssa.Value)
+				if sum := flowSummaryOf(cc.StaticCallee(), fn); sum != nil {
+					g.applySummary(sum, cc, res)
+					continue
+				}
 				var ins_ []ssa.Value
 				if cc.IsInvoke() {
 					ins_ = append(ins_, cc.Value)
@@ -272,4 +279,127 @@ func (g *FlowGraph) kindsReaching(v ssa.Value) map[string]bool {
 		}
 	}
 	return out
+}
+
+// ---- call summaries for functions of the analysed package ------------------
+//
+// A static call of a function whose body is in package pub is not summarised
+// as "every argument flows to every result": the callee's own graph says
+// which parameter reaches which result (and which other parameter's
+// containers), and which calls inside the callee (transitively) a result may
+// derive from. Those inner calls appear as source nodes in the caller's
+// graph, so that "this value is the result of Database.X" is answered the same
+// whether the Database call sits in the function or in a helper extracted from
+// it. Recursive cycles fall back to the coarse summary.
+
+type flowSummary struct {
+	nres    int
+	p2r     map[int]map[int]bool // parameter index -> result index
+	p2p     map[int]map[int]bool // parameter index -> parameter whose containers it flows into
+	origins map[int][]ssa.Value  // result index -> call values inside the callee it may derive from
+}
+
+var flowSummaries = map[*ssa.Function]*flowSummary{}
+var flowSummaryBusy = map[*ssa.Function]bool{}
+
+func flowSummaryOf(f, caller *ssa.Function) *flowSummary {
+	if f == nil || caller == nil || f.Blocks == nil || f.Pkg == nil || f.Pkg != caller.Pkg || f == caller || len(f.FreeVars) > 0 || flowBuilding[f] {
+		return nil
+	}
+	if s, ok := flowSummaries[f]; ok {
+		return s
+	}
+	if flowSummaryBusy[f] {
+		return nil
+	}
+	flowSummaryBusy[f] = true
+	defer delete(flowSummaryBusy, f)
+	g := flowOf(f)
+	sum := &flowSummary{nres: f.Signature.Results().Len(), p2r: map[int]map[int]bool{}, p2p: map[int]map[int]bool{}, origins: map[int][]ssa.Value{}}
+	rets := returnsIn(f)
+	for i, prm := range f.Params {
+		fw := g.forward(prm, nil)
+		for _, r := range rets {
+			for j, op := range r.Results {
+				if fw[op] {
+					if sum.p2r[i] == nil {
+						sum.p2r[i] = map[int]bool{}
+					}
+					sum.p2r[i][j] = true
+				}
+			}
+		}
+		for k, other := range f.Params {
+			if k != i && fw[other] {
+				if sum.p2p[i] == nil {
+					sum.p2p[i] = map[int]bool{}
+				}
+				sum.p2p[i][k] = true
+			}
+		}
+	}
+	for _, r := range rets {
+		for j, op := range r.Results {
+			seen := map[ssa.Value]bool{}
+			for _, o := range sum.origins[j] {
+				seen[o] = true
+			}
+			for v := range g.backward(op) {
+				if c, ok := v.(*ssa.Call); ok && !seen[c] {
+					// getters on vocabulary values inside a helper are not origins
+					// anybody asks about; application interfaces and static calls are
+					if c.Common().IsInvoke() {
+						if _, isApp := classifyIfaceCall(pubIfaceName(c.Common().Value.Type()), c.Common().Method.Name()); !isApp {
+							continue
+						}
+					}
+					seen[c] = true
+					sum.origins[j] = append(sum.origins[j], c)
+				}
+			}
+		}
+	}
+	flowSummaries[f] = sum
+	return sum
+}
+
+func (g *FlowGraph) applySummary(sum *flowSummary, cc *ssa.CallCommon, res ssa.Value) {
+	target := func(j int) []ssa.Value {
+		if res == nil {
+			return nil
+		}
+		if sum.nres <= 1 {
+			return []ssa.Value{res}
+		}
+		var out []ssa.Value
+		if refs := res.Referrers(); refs != nil {
+			for _, r := range *refs {
+				if e, ok := r.(*ssa.Extract); ok && e.Index == j {
+					out = append(out, e)
+				}
+			}
+		}
+		return out
+	}
+	for i, a := range cc.Args {
+		for j := range sum.p2r[i] {
+			for _, t := range target(j) {
+				g.edge(a, t)
+			}
+		}
+		for k := range sum.p2p[i] {
+			if k < len(cc.Args) {
+				for _, c := range containers(cc.Args[k]) {
+					g.edge(a, c)
+				}
+			}
+		}
+	}
+	for j, os := range sum.origins {
+		for _, o := range os {
+			for _, t := range target(j) {
+				g.edge(o, t)
+			}
+		}
+	}
 }
